@@ -10,7 +10,6 @@ import warnings
 from hypothesis import strategies as st
 
 from lib import runner, shapes
-from lib.refmodel import RefTree
 from lib.snapshot import snapshot
 
 CONFIG = {
@@ -404,8 +403,10 @@ def check_ages(ctx, case):
         raised = e
     ctx.check(lengths_now(pre) == pre.length, "age_calculation_leaves_edge_lengths_alone", "C17.ages_mutate_lengths", tag)
 
+    fam = "exact" if not case["shifts"] else "one_shift" if len(case["shifts"]) == 1 else "two_shifts"
     if raised is not None:
         ctx.cls("ages:outcome:rejected")
+        ctx.sample("ages_%s_rejected" % fam, case)
         ctx.check(isinstance(raised, error.UltrametricityError), "rejection_is_an_UltrametricityError",
                   "C17.error_type", lambda: "%s: %s; %s" % (type(raised).__name__, str(raised)[:200], tag))
         if not checked:
@@ -416,6 +417,8 @@ def check_ages(ctx, case):
                      "spread=%r precision=%r; %s: %s" % (spread, p, tag, str(raised)[:150]))
         return
     ctx.cls("ages:outcome:accepted")
+    if case["shifts"] and checked:
+        ctx.sample("ages_%s_accepted" % fam, case)
     if must_reject:
         worst = local_first_child_deviation(pre, leaf_age)
         d = "root-to-tip sums %r spread=%r > precision=%r; largest first-child-vs-sibling difference %r; %s" % (
@@ -791,6 +794,8 @@ def check_stats(ctx, case):
     if pre.canon(lengths=True) != pre2.canon(lengths=True):
         raise runner.HarnessError("permuted spec is a different tree")
     keys = sorted(want)
+    if n >= 4 and s["binary"] and "treeness" in want:
+        ctx.sample("stats_binary_with_lengths", case)
     got = library_stats(ctx, tree, keys, case["alias"])
     got2 = library_stats(ctx, tree2, keys, False)
     scale = {"length": want["length"], "colless:yule": n * math.log(n) if n > 1 else 1.0, "sackin:yule": n}
@@ -890,6 +895,8 @@ def check_gamma(ctx, case):
     except ValueError as e:
         ctx.fail("gamma_defined_on_binary_ultrametric_tree", "C17.gamma_accept", "%s: %s; %s" % (type(e).__name__, str(e)[:200], tag))
         return
+    if n >= 4:
+        ctx.sample("gamma_ok", case)
     ctx.check(isinstance(g, float) and close(g, want, 0.0, 1e-9), "gamma_equals_pybus_harvey_formula", "C17.gamma_value",
               lambda: "got %r want %r; %s" % (g, want, tag))
     if not case["shift"]:
